@@ -494,7 +494,7 @@ def run(ctx, only_cases=None):
         pinfo = vlib.coq_properties("C04")
         vlib.coq_make(["Proofs/SideC04.vo"])
         vlib.proof_coverage(ctx, pinfo, "make -C coq Properties/C04.vo Proofs/SideC04.vo && coqc Properties/C04.v (Print Assumptions audit)",
-                            extra_obligations=5)  # the 5 regenerated side conditions in Proofs/SideC04.v
+                            extra_obligations=6)  # the 6 regenerated side conditions in Proofs/SideC04.v
     except vlib.Broken as b:
         broken = b   # keep going: search the implementation for a concrete failing cell first
 
